@@ -1032,3 +1032,670 @@ Lemma wit_run_nontrivial :
   /\ file_of (run true true wit_render (fun _ => []) rev_oracle wit_args [bs "m/a"] wit_world wit_gens wit_fs) (bs "a", bs "zz_generated.rec.go")
      = Some (bs "G;Gm(M0,M1,);").
 Proof. vm_compute. split; reflexivity. Qed.
+
+(* ================= the second run ================= *)
+
+Definition is_gen_name (a : args) (b : bytes) : bool := has_prefix (a_base a ++ bs ".") b.
+Definition generated (a : args) (q : path) : bool := is_gen_name a (snd q).
+Definition selected (a : args) (direct : bool) : bool := a_all a || direct.
+
+(* two loads of the same sources: the files present and the directory hashes may differ *)
+Definition src_eq (p p' : pkg) : Prop :=
+  pk_path p = pk_path p' /\ pk_name p = pk_name p' /\ pk_dir p = pk_dir p'
+  /\ pk_filetags p = pk_filetags p' /\ pk_defs p = pk_defs p' /\ pk_meths p = pk_meths p'.
+
+Definition reload (w w' : world) : Prop := w_moddir w = w_moddir w' /\ Forall2 src_eq (w_pkgs w) (w_pkgs w').
+
+(* the hypothesis on generators: what they render depends on the sources only — not on which generated
+   files exist, nor on the directory hash (they do not read generated files) *)
+Definition reads_sources_only (g : gen) : Prop :=
+  forall p p' mv cs, src_eq p p' -> g_run g p mv cs = g_run g p' mv cs.
+
+Definition eff_id (f : fs) (e : effect) : Prop :=
+  match e with EWrite q b => f q = Some b | ERemove r => f r = None end.
+
+Lemma apply_feq : forall es f f', feq f f' -> feq (apply es f) (apply es f').
+Proof. intros es f f' H. now apply aeq_refl. Qed.
+
+Lemma apply_id : forall es f, (forall e, In e es -> eff_id f e) -> feq (apply es f) f.
+Proof.
+  induction es as [|e es IH]; intros f H q; cbn; [reflexivity|].
+  change (fold_left apply1 es (apply1 f e)) with (apply es (apply1 f e)).
+  assert (E : feq (apply1 f e) f).
+  { intros r. pose proof (H e (or_introl eq_refl)) as He. destruct e as [p b|p]; cbn in *.
+    - destruct (path_eqb r p) eqn:Ep; [|reflexivity]. apply path_eqb_spec in Ep. now subst.
+    - destruct (path_eqb r p) eqn:Ep; [|reflexivity]. apply path_eqb_spec in Ep. now subst. }
+  rewrite (apply_feq es _ _ E q). apply IH. intros e0 Hin. apply H. now right.
+Qed.
+
+Section Alist2.
+  Context {V : Type}.
+  Lemma In_aset : forall (m : alist V) k v k' v', In (k, v) (aset k' v' m) -> (k = k' /\ v = v') \/ In (k, v) m.
+  Proof.
+    induction m as [|[k0 v0] r IH]; intros k v k' v' H; cbn in H.
+    - destruct H as [H|[]]. inversion H. auto.
+    - beq k' k0.
+      + destruct H as [H|H]; [inversion H; auto|right; now right].
+      + destruct H as [H|H]; [right; now left|]. apply IH in H. destruct H; auto. right. now right.
+  Qed.
+
+  Lemma In_adel : forall (m : alist V) k v k', In (k, v) (adel k' m) <-> In (k, v) m /\ k <> k'.
+  Proof.
+    induction m as [|[k0 v0] r IH]; intros k v k'; cbn.
+    - tauto.
+    - beq k' k0; cbn.
+      + rewrite IH. split; [tauto|]. intros [[H|H] Hne]; [inversion H; subst; contradiction|tauto].
+      + rewrite IH. split.
+        * intros [H|[H Hne]]; [|tauto]. inversion H; subst. split; [now left|].
+          intros ->. rewrite bytes_eqb_refl in E. discriminate.
+        * tauto.
+  Qed.
+
+  Lemma In_fold_adel {X} (h : X -> bytes) : forall l (s : alist V) k v,
+      In (k, v) (fold_left (fun s x => adel (h x) s) l s) <-> In (k, v) s /\ forall x, In x l -> k <> h x.
+  Proof.
+    induction l as [|x l IH]; intros s k v; cbn.
+    - split; [intros H; split; [exact H|intros x []]|tauto].
+    - rewrite IH, In_adel. split.
+      + intros [[H Hne] Hall]. split; [exact H|]. intros y [<-|Hy]; auto.
+      + intros [H Hall]. split; [split; [exact H|apply Hall; now left]|]. intros y Hy. apply Hall. now right.
+  Qed.
+
+  Lemma NoDup_keys_adel : forall (m : alist V) k, NoDup (keys m) -> NoDup (keys (adel k m)).
+  Proof.
+    induction m as [|[k0 v0] r IH]; intros k H; cbn; [constructor|].
+    cbn in H. inversion H as [|? ? Hn Hr]; subst. beq k k0; [now apply IH|]. cbn.
+    constructor; [|now apply IH]. rewrite keys_adel_in. tauto.
+  Qed.
+
+  Lemma NoDup_keys_fold_adel {X} (h : X -> bytes) : forall l (s : alist V),
+      NoDup (keys s) -> NoDup (keys (fold_left (fun s x => adel (h x) s) l s)).
+  Proof. induction l as [|x l IH]; intros s H; cbn; [exact H|]. apply IH. now apply NoDup_keys_adel. Qed.
+End Alist2.
+
+(* generatedFiles: every listed file named <base>.*, mapped to its full name *)
+Lemma generated_files_gen : forall a (dir : bytes) l (m : alist path),
+    (forall k v, In (k, v) m -> v = (dir, k) /\ is_gen_name a k = true) -> NoDup (keys m) ->
+    let r := fold_left (fun m f => if has_prefix (a_base a ++ bs ".") f then aset f (dir, f) m else m) l m in
+    (forall k v, In (k, v) r -> v = (dir, k) /\ is_gen_name a k = true)
+    /\ NoDup (keys r)
+    /\ (forall k, (In k l /\ is_gen_name a k = true) \/ In k (keys m) -> In k (keys r)).
+Proof.
+  intros a dir. induction l as [|x l IH]; intros m Hm HN r; subst r; cbn [fold_left].
+  - split; [exact Hm|]. split; [exact HN|]. intros k [[[] _]|H]. exact H.
+  - destruct (has_prefix (a_base a ++ bs ".") x) eqn:E.
+    + destruct (IH (aset x (dir, x) m)) as [I1 [I2 I3]].
+      * intros k v H. apply In_aset in H. destruct H as [[-> ->]|H]; [split; [reflexivity|exact E]|now apply Hm].
+      * now apply NoDup_keys_aset.
+      * split; [exact I1|]. split; [exact I2|]. intros k H. apply I3.
+        destruct H as [[[<-|H] Hg]|H].
+        -- right. apply keys_aset_in. now left.
+        -- left. tauto.
+        -- right. apply keys_aset_in. now right.
+    + destruct (IH m Hm HN) as [I1 [I2 I3]]. split; [exact I1|]. split; [exact I2|]. intros k H. apply I3.
+      destruct H as [[[<-|H] Hg]|H]; auto. unfold is_gen_name in Hg. congruence.
+Qed.
+
+Lemma generated_files_spec : forall a p,
+    (forall k v, In (k, v) (generated_files a p) -> v = (pk_dir p, k) /\ is_gen_name a k = true)
+    /\ NoDup (keys (generated_files a p))
+    /\ (forall k, In k (pk_files p) -> is_gen_name a k = true -> In (k, (pk_dir p, k)) (generated_files a p)).
+Proof.
+  intros a p. unfold generated_files.
+  destruct (generated_files_gen a (pk_dir p) (pk_files p) []) as [I1 [I2 I3]]; [intros k v []|constructor|].
+  split; [exact I1|]. split; [exact I2|]. intros k Hin Hg.
+  assert (Hk : In k (keys (fold_left (fun m f => if has_prefix (a_base a ++ bs ".") f then aset f (pk_dir p, f) m else m) (pk_files p) [])))
+    by (apply I3; left; tauto).
+  apply in_map_iff in Hk. destruct Hk as [[k' v] [Hf Hk]]. cbn in Hf. subst k'.
+  destruct (I1 k v Hk) as [-> _]. exact Hk.
+Qed.
+
+(* the sorted list of local packages, canonically *)
+Lemma sorted_local_canon : forall (o : oracle) e w, shuffles o -> wf_world w ->
+    sorted_local o e w = map (fun k => (k, mem k e)) (sort_strings (map pk_path (w_pkgs w))).
+Proof.
+  intros o e w Hs Hw. unfold sorted_local. rewrite (local_pkgs_eq o e w Hs Hw). ukeys.
+  set (L := map (fun p => (pk_path p, mem (pk_path p) e)) (o _ [bs "reg"] (w_pkgs w))).
+  assert (HN : NoDup (keys L)).
+  { unfold L. rewrite map_map. cbn. eapply Permutation_NoDup; [|apply (wf_paths w Hw)]. apply Permutation_map, Hs. }
+  assert (HK : Permutation (keys (o _ [bs "local"] L)) (map pk_path (w_pkgs w))).
+  { eapply perm_trans; [apply Permutation_map, Permutation_sym, Hs|]. unfold L. rewrite map_map. cbn.
+    apply Permutation_map, Permutation_sym, Hs. }
+  rewrite (sort_perm_eq _ _ HK). apply map_ext_in. intros k Hk. f_equal.
+  assert (Hin : In k (map pk_path (w_pkgs w))) by (eapply Permutation_in; [apply Permutation_sym, sort_perm|exact Hk]).
+  apply in_map_iff in Hin. destruct Hin as [p [<- Hp]].
+  rewrite (lookup_In L (pk_path p) (mem (pk_path p) e) HN); [reflexivity|].
+  unfold L. apply in_map_iff. exists p. split; [reflexivity|]. eapply Permutation_in; [apply Hs|exact Hp].
+Qed.
+
+Lemma reload_paths : forall w w', reload w w' -> map pk_path (w_pkgs w) = map pk_path (w_pkgs w').
+Proof.
+  intros w w' [_ H]. induction H as [|p p' l l' Hp _ IH]; cbn; [reflexivity|].
+  destruct Hp as [-> _]. now rewrite IH.
+Qed.
+
+Lemma find_pkg_reload : forall w w' k p', reload w w' -> find_pkg k w' = Some p' ->
+    exists p, find_pkg k w = Some p /\ src_eq p p'.
+Proof.
+  intros w w' k p' [_ H]. unfold find_pkg. induction H as [|p q l l' Hp _ IH]; cbn; [discriminate|].
+  pose proof Hp as [Hpath _]. rewrite Hpath. destruct (bytes_eqb k (pk_path q)).
+  - intros E. inversion E; subst. eauto.
+  - exact IH.
+Qed.
+
+Lemma find_pkg_some : forall w k, In k (map pk_path (w_pkgs w)) -> exists p, find_pkg k w = Some p.
+Proof.
+  intros w k H. unfold find_pkg. induction (w_pkgs w) as [|p l IH]; cbn in *; [contradiction|].
+  destruct (bytes_eqb k (pk_path p)) eqn:E; [eauto|]. destruct H as [H|H]; [|now apply IH].
+  subst. rewrite bytes_eqb_refl in E. discriminate.
+Qed.
+
+Lemma find_pkg_path : forall w k p, find_pkg k w = Some p -> pk_path p = k /\ In p (w_pkgs w).
+Proof.
+  intros w k p H. unfold find_pkg in H. apply find_some in H. destruct H as [Hin E].
+  apply bytes_eqb_spec in E. auto.
+Qed.
+
+Section Second.
+  Variable render : gfile -> option bytes.
+  Variable parse_sum : bytes -> alist bytes.
+  Variable o : oracle.
+  Hypothesis Hs : shuffles o.
+
+  (* a package's generated files are exactly what its generators produce *)
+  Definition settled_pkg (a : args) (gens : list gen) (p : pkg) (f : fs) : Prop :=
+    exists gfs log,
+      gens_loop true true o a p (pkg_tags o p) gens [] [] = Some (gfs, log)
+      /\ (forall g out, In (g, out) gfs -> is_nil (go_body out) = false ->
+                        exists b, render (mk_file o p g out) = Some b /\ f (pk_dir p, filename a g) = Some b)
+      /\ (forall k, is_gen_name a k = true -> f (pk_dir p, k) <> None ->
+                    exists g, In g (keys gfs) /\ k = filename a g).
+
+  Definition settled (a : args) (e : list bytes) (gens : list gen) (w : world) (f : fs) : Prop :=
+    forall k p, In k (map pk_path (w_pkgs w)) -> selected a (mem k e) = true -> find_pkg k w = Some p ->
+                settled_pkg a gens p f.
+
+  Lemma gen_one_src : forall a p p' g, src_eq p p' -> reads_sources_only g ->
+      gen_one true true o a p (pkg_tags o p) g = gen_one true true o a p' (pkg_tags o p') g.
+  Proof.
+    intros a [pa na da fa ta de me ha] [pa' na' da' fa' ta' de' me' ha'] g H Hg.
+    pose proof H as [E1 [E2 [E3 [E4 [E5 E6]]]]]. cbn in *. subst.
+    unfold gen_one. rewrite (Hg _ _ _ _ H). reflexivity.
+  Qed.
+
+  Lemma gens_loop_src : forall a p p' gs gfs log, src_eq p p' -> Forall reads_sources_only gs ->
+      gens_loop true true o a p (pkg_tags o p) gs gfs log = gens_loop true true o a p' (pkg_tags o p') gs gfs log.
+  Proof.
+    intros a p p' gs. induction gs as [|g gs IH]; intros gfs log H HF; cbn; [reflexivity|].
+    inversion HF; subst. rewrite (gen_one_src a p p' g H) by assumption.
+    destruct (gen_one true true o a p' (pkg_tags o p') g) as [[calls og]|]; [|reflexivity].
+    pose proof H as [E _]. rewrite E. now apply IH.
+  Qed.
+
+  Lemma mk_file_src : forall p p' g out, src_eq p p' -> mk_file o p g out = mk_file o p' g out.
+  Proof. intros p p' g out [E1 [E2 _]]. unfold mk_file. now rewrite E1, E2. Qed.
+
+  Lemma settled_pkg_src : forall a gens p p' f, src_eq p p' -> Forall reads_sources_only gens ->
+      settled_pkg a gens p f -> settled_pkg a gens p' f.
+  Proof.
+    intros a gens p p' f H HF [gfs [log [G [C1 C2]]]]. exists gfs, log.
+    rewrite <- (gens_loop_src a p p' gens [] [] H HF). split; [exact G|].
+    pose proof H as [_ [_ [Ed _]]]. rewrite <- Ed. split.
+    - intros g out Hin Hb. rewrite <- (mk_file_src p p' g out H). now apply C1.
+    - exact C2.
+  Qed.
+
+  (* executing a settled package changes nothing *)
+  Lemma pkg_execute_settled : forall a gens p f, settled_pkg a gens p f ->
+      exists es log, pkg_execute true true render o a gens p = Some (es, log) /\ forall e, In e es -> eff_id f e.
+  Proof.
+    intros a gens p f [gfs [log [G [C1 C2]]]]. unfold pkg_execute. rewrite G, write_loop_spec.
+    assert (HP : Permutation gfs (o _ [bs "gfs"; pk_path p] gfs)) by apply Hs.
+    assert (Hok : forallb (wl_ok render o p) (o _ [bs "gfs"; pk_path p] gfs) = true).
+    { apply forallb_forall. intros [g out] Hin. unfold wl_ok. cbn.
+      destruct (is_nil (go_body out)) eqn:E; [reflexivity|]. cbn.
+      destruct (C1 g out) as [b [R _]]; [eapply Permutation_in; [apply Permutation_sym; exact HP|exact Hin]|exact E|].
+      now rewrite R. }
+    rewrite Hok. eexists _, log. split; [reflexivity|]. cbn. intros e Hin. apply in_app_or in Hin. destruct Hin as [Hin|Hin].
+    - apply in_flat_map in Hin. destruct Hin as [[g out] [Hg He]]. unfold wl_eff in He. cbn in He.
+      destruct (is_nil (go_body out)) eqn:E; [contradiction|].
+      destruct (C1 g out) as [b [R F]]; [eapply Permutation_in; [apply Permutation_sym; exact HP|exact Hg]|exact E|].
+      rewrite R in He. destruct He as [<-|[]]. exact F.
+    - apply in_map_iff in Hin. destruct Hin as [[k v] [<- Hkv]]. cbn.
+      assert (Hkv' : In (k, v) (fold_left (fun s (kv : bytes * genout) => adel (filename a (fst kv)) s)
+                                          (o _ [bs "gfs"; pk_path p] gfs) (generated_files a p)))
+        by (eapply Permutation_in; [apply Permutation_sym, Hs|exact Hkv]).
+      apply (In_fold_adel (fun kv : bytes * genout => filename a (fst kv))) in Hkv'. destruct Hkv' as [Hg Hne].
+      destruct (generated_files_spec a p) as [S1 _]. destruct (S1 k v Hg) as [-> Hgen].
+      destruct (f (pk_dir p, k)) eqn:F; [|reflexivity]. exfalso.
+      destruct (C2 k Hgen) as [g [Hgin ->]]; [congruence|].
+      apply in_map_iff in Hgin. destruct Hgin as [[g' out] [Hf Hgin]]. cbn in Hf. subst g'.
+      apply (Hne (g, out)); [eapply Permutation_in; [exact HP|exact Hgin]|reflexivity].
+  Qed.
+
+  Lemma pkgs_loop_settled : forall a e gens w w' f prev cur,
+      reload w w' -> Forall reads_sources_only gens -> settled a e gens w f ->
+      forall l es log,
+        (forall k d, In (k, d) l -> In k (map pk_path (w_pkgs w)) /\ d = mem k e) ->
+        (forall x, In x es -> eff_id f x) ->
+        exists es' log', pkgs_loop true true render o a w' gens prev cur l es log = Some (es', log')
+                         /\ forall x, In x es' -> eff_id f x.
+  Proof.
+    intros a e gens w w' f prev cur Hr HF Hset. induction l as [|[k d] l IH]; intros es log Hl Hes; cbn.
+    - eauto.
+    - assert (Hl' : forall k0 d0, In (k0, d0) l -> In k0 (map pk_path (w_pkgs w)) /\ d0 = mem k0 e)
+        by (intros; apply Hl; now right).
+      destruct (negb (a_all a) && negb d) eqn:Sel; [now apply IH|].
+      destruct (negb (pkg_changed a prev cur k)); [now apply IH|].
+      destruct (Hl k d (or_introl eq_refl)) as [Hk ->].
+      destruct (find_pkg_some w' k) as [p' F']; [rewrite <- (reload_paths w w' Hr); exact Hk|].
+      rewrite F'. destruct (find_pkg_reload w w' k p' Hr F') as [p [F Hsrc]].
+      assert (Hsel : selected a (mem k e) = true).
+      { unfold selected. destruct (a_all a), (mem k e); cbn in *; congruence. }
+      pose proof (settled_pkg_src a gens p p' f Hsrc HF (Hset k p Hk Hsel F)) as Hp'.
+      destruct (pkg_execute_settled a gens p' f Hp') as [es1 [log1 [E Hid]]]. rewrite E.
+      apply IH; [exact Hl'|]. intros x Hx. apply in_app_or in Hx. destruct Hx; auto.
+  Qed.
+
+  (* a run on a settled tree: only gengo.sum may change *)
+  Lemma run_settled : forall a e gens w w' f,
+      wf_world w' -> reload w w' -> Forall reads_sources_only gens -> settled a e gens w f ->
+      exists f' log, run true true render parse_sum o a e w' gens f = Some (f', log)
+                     /\ forall q, q <> (w_moddir w', sum_name) -> f' q = f q.
+  Proof.
+    intros a e gens w w' f Hw' Hr HF Hset. unfold run, plan.
+    set (prev := if a_all a && existsb snd (sorted_local o e w') then _ else None).
+    destruct (pkgs_loop_settled a e gens w w' f prev (sum_data o w') Hr HF Hset (sorted_local o e w') [] [])
+      as [es [log [E Hid]]].
+    - intros k d Hin. rewrite (sorted_local_canon o e w' Hs Hw') in Hin.
+      apply in_map_iff in Hin. destruct Hin as [k' [Heq Hin]]. inversion Heq; subst. split; [|reflexivity].
+      rewrite (reload_paths w w' Hr). eapply Permutation_in; [apply Permutation_sym, sort_perm|exact Hin].
+    - intros x [].
+    - rewrite E. eexists _, log. split; [reflexivity|]. intros q Hq.
+      destruct (a_all a).
+      + rewrite apply_app. set (sp := (w_moddir w', sum_name)) in *. cbn. destruct (path_eqb q sp) eqn:Eq.
+        * apply path_eqb_spec in Eq. contradiction.
+        * exact (apply_id es f Hid q).
+      + exact (apply_id es f Hid q).
+  Qed.
+End Second.
+
+(* ================= the first run settles the tree ================= *)
+
+Lemma has_prefix_app : forall p s, has_prefix p (p ++ s) = true.
+Proof. induction p as [|x p IH]; intros s; cbn; [reflexivity|]. now rewrite Ascii.eqb_refl, IH. Qed.
+
+Lemma filename_is_gen : forall a g, is_gen_name a (filename a g) = true.
+Proof.
+  intros a g. unfold is_gen_name, filename. rewrite app_assoc. apply has_prefix_app.
+Qed.
+
+Lemma NoDup_app_intro {A} : forall l1 l2 : list A,
+    NoDup l1 -> NoDup l2 -> (forall x, In x l1 -> ~ In x l2) -> NoDup (l1 ++ l2).
+Proof.
+  induction l1 as [|x l1 IH]; intros l2 H1 H2 Hd; cbn; [exact H2|].
+  inversion H1 as [|? ? Hn Hr]; subst. constructor.
+  - intros Hin. apply in_app_or in Hin. destruct Hin as [Hin|Hin]; [contradiction|]. apply (Hd x); [now left|exact Hin].
+  - apply IH; try assumption. intros y Hy. apply Hd. now right.
+Qed.
+
+Lemma NoDup_map_snd_dir : forall (dir : bytes) (l : alist path),
+    NoDup (keys l) -> (forall kv, In kv l -> snd kv = (dir, fst kv)) -> NoDup (map snd l).
+Proof.
+  intros dir. induction l as [|[k v] l IH]; cbn; intros HN H; [constructor|].
+  inversion HN as [|? ? Hn Hr]; subst. constructor.
+  - intros Hin. apply in_map_iff in Hin. destruct Hin as [[k' v'] [Hv Hin]]. cbn in Hv. subst v'.
+    pose proof (H (k, v) (or_introl eq_refl)) as E1. pose proof (H (k', v) (or_intror Hin)) as E2. cbn in *.
+    rewrite E1 in E2. inversion E2; subst. apply Hn. change k' with (fst (k', (dir, k'))). now apply in_map.
+  - apply IH; [exact Hr|]. intros kv Hin. apply H. now right.
+Qed.
+
+Lemma find_in_nodup : forall es e, NoDup (map eff_path es) -> In e es ->
+    find (fun e0 => path_eqb (eff_path e) (eff_path e0)) es = Some e.
+Proof.
+  induction es as [|x es IH]; intros e HN Hin; [contradiction|]. cbn in *.
+  inversion HN as [|? ? Hn Hr]; subst. destruct Hin as [->|Hin].
+  - now rewrite path_eqb_refl.
+  - destruct (path_eqb (eff_path e) (eff_path x)) eqn:E; [|now apply IH].
+    apply path_eqb_spec in E. exfalso. apply Hn. rewrite <- E. now apply in_map.
+Qed.
+
+Lemma apply_untouched : forall es f q, (forall e, In e es -> eff_path e <> q) -> apply es f q = f q.
+Proof.
+  induction es as [|e es IH]; intros f q H; cbn; [reflexivity|].
+  change (fold_left apply1 es (apply1 f e)) with (apply es (apply1 f e)).
+  rewrite IH by (intros e0 Hin; apply H; now right).
+  pose proof (H e (or_introl eq_refl)) as Hne.
+  destruct e as [p b|p]; cbn in *; destruct (path_eqb q p) eqn:E; try reflexivity;
+    apply path_eqb_spec in E; congruence.
+Qed.
+
+Lemma apply_local : forall es f f' q, f q = f' q -> apply es f q = apply es f' q.
+Proof.
+  induction es as [|e es IH]; intros f f' q H; cbn; [exact H|].
+  change (fold_left apply1 es (apply1 ?g e)) with (apply es (apply1 g e)).
+  apply IH. destruct e as [p b|p]; cbn; destruct (path_eqb q p); auto.
+Qed.
+
+Section First.
+  Variable render : gfile -> option bytes.
+  Variable parse_sum : bytes -> alist bytes.
+  Variable o : oracle.
+  Hypothesis Hs : shuffles o.
+
+  (* every file named <base>.* that exists in a package directory was listed when the package was loaded *)
+  Definition loaded (a : args) (w : world) (f : fs) : Prop :=
+    forall p k, In p (w_pkgs w) -> is_gen_name a k = true -> f (pk_dir p, k) <> None -> In k (pk_files p).
+
+  (* the run regenerates every selected package: Force, or no cache (not All / no previous gengo.sum) *)
+  Definition regen_all (a : args) (w : world) (f : fs) : Prop :=
+    a_force a = true \/ a_all a = false \/ f (w_moddir w, sum_name) = None.
+
+  Lemma pkg_execute_shape : forall a gens p es log,
+      pkg_execute true true render o a gens p = Some (es, log) ->
+      exists gfs,
+        gens_loop true true o a p (pkg_tags o p) gens [] [] = Some (gfs, log)
+        /\ forallb (wl_ok render o p) (o _ [bs "gfs"; pk_path p] gfs) = true
+        /\ es = flat_map (wl_eff render o a p) (o _ [bs "gfs"; pk_path p] gfs)
+                ++ map (fun kv : bytes * path => ERemove (snd kv))
+                       (o _ [bs "stale"; pk_path p]
+                          (fold_left (fun s (kv : bytes * genout) => adel (filename a (fst kv)) s)
+                                     (o _ [bs "gfs"; pk_path p] gfs) (generated_files a p))).
+  Proof.
+    intros a gens p es log H. unfold pkg_execute in H.
+    destruct (gens_loop true true o a p (pkg_tags o p) gens [] []) as [[gfs lg]|]; [|discriminate].
+    rewrite write_loop_spec in H.
+    destruct (forallb (wl_ok render o p) (o _ [bs "gfs"; pk_path p] gfs)) eqn:F; [|discriminate].
+    cbn in H. inversion H; subst. exists gfs. auto.
+  Qed.
+
+  Lemma stale_entry : forall a p (l : list (bytes * genout)) k v,
+      In (k, v) (fold_left (fun s (kv : bytes * genout) => adel (filename a (fst kv)) s) l (generated_files a p)) ->
+      v = (pk_dir p, k) /\ is_gen_name a k = true /\ forall x, In x l -> k <> filename a (fst x).
+  Proof.
+    intros a p l k v H. apply (In_fold_adel (fun kv : bytes * genout => filename a (fst kv))) in H.
+    destruct H as [Hg Hne]. destruct (generated_files_spec a p) as [S1 _]. destruct (S1 k v Hg). auto.
+  Qed.
+
+  Lemma wl_eff_in : forall a p l e, In e (flat_map (wl_eff render o a p) l) ->
+      exists g out b, In (g, out) l /\ is_nil (go_body out) = false /\ render (mk_file o p g out) = Some b
+                      /\ e = EWrite (pk_dir p, filename a g) b.
+  Proof.
+    intros a p l e H. apply in_flat_map in H. destruct H as [[g out] [Hin He]]. unfold wl_eff in He. cbn in He.
+    destruct (is_nil (go_body out)) eqn:E; [contradiction|].
+    destruct (render (mk_file o p g out)) as [b|] eqn:R; [|contradiction]. destruct He as [<-|[]].
+    exists g, out, b. auto.
+  Qed.
+
+  Lemma pkg_execute_paths : forall a gens p es log,
+      pkg_execute true true render o a gens p = Some (es, log) ->
+      forall e, In e es -> fst (eff_path e) = pk_dir p /\ is_gen_name a (snd (eff_path e)) = true.
+  Proof.
+    intros a gens p es log H e Hin. destruct (pkg_execute_shape a gens p es log H) as [gfs [_ [_ ->]]].
+    apply in_app_or in Hin. destruct Hin as [Hin|Hin].
+    - destruct (wl_eff_in a p _ e Hin) as [g [out [b [_ [_ [_ ->]]]]]]. cbn. split; [reflexivity|apply filename_is_gen].
+    - apply in_map_iff in Hin. destruct Hin as [[k v] [<- Hkv]]. cbn.
+      assert (Hkv' := Permutation_in _ (Permutation_sym (Hs _ _ _)) Hkv).
+      destruct (stale_entry a p _ k v Hkv') as [-> [Hg _]]. cbn. auto.
+  Qed.
+
+  Lemma pkg_execute_nodup : forall a gens p es log,
+      pkg_execute true true render o a gens p = Some (es, log) -> NoDup (map eff_path es).
+  Proof.
+    intros a gens p es log H. destruct (pkg_execute_shape a gens p es log H) as [gfs [G [_ ->]]].
+    assert (HN : NoDup (keys gfs)) by (eapply (gens_loop_nodup o); [|exact G]; constructor).
+    rewrite map_app. apply NoDup_app_intro.
+    - apply wl_eff_paths. eapply Permutation_NoDup; [|exact HN]. apply Permutation_map, Hs.
+    - rewrite map_map. cbn.
+      apply (NoDup_map_snd_dir (pk_dir p)).
+      + eapply Permutation_NoDup; [apply Permutation_map, Hs|].
+        apply (NoDup_keys_fold_adel (fun kv : bytes * genout => filename a (fst kv))).
+        apply (generated_files_spec a p).
+      + intros [k v] Hin. assert (Hin' := Permutation_in _ (Permutation_sym (Hs _ _ _)) Hin).
+        destruct (stale_entry a p _ k v Hin') as [-> _]. reflexivity.
+    - intros q Hq1 Hq2.
+      apply in_map_iff in Hq1. destruct Hq1 as [e1 [<- He1]].
+      destruct (wl_eff_in a p _ e1 He1) as [g [out [b [Hg [_ [_ ->]]]]]]. cbn in Hq2.
+      rewrite map_map in Hq2. cbn in Hq2. apply in_map_iff in Hq2. destruct Hq2 as [[k v] [Hv Hkv]]. cbn in Hv.
+      assert (Hkv' := Permutation_in _ (Permutation_sym (Hs _ _ _)) Hkv).
+      destruct (stale_entry a p _ k v Hkv') as [-> [_ Hne]]. inversion Hv; subst.
+      apply (Hne (g, out) Hg). reflexivity.
+  Qed.
+
+  Lemma pkg_execute_settles : forall a gens p es log f f1,
+      pkg_execute true true render o a gens p = Some (es, log) ->
+      (forall k, is_gen_name a k = true -> f (pk_dir p, k) <> None -> In k (pk_files p)) ->
+      (forall k, is_gen_name a k = true -> f1 (pk_dir p, k) = apply es f (pk_dir p, k)) ->
+      settled_pkg render o a gens p f1.
+  Proof.
+    intros a gens p es log f f1 H Hload Hf1.
+    pose proof (pkg_execute_nodup a gens p es log H) as HN.
+    destruct (pkg_execute_shape a gens p es log H) as [gfs [G [Hok Hes]]].
+    assert (HP : Permutation gfs (o _ [bs "gfs"; pk_path p] gfs)) by apply Hs.
+    exists gfs, log. split; [exact G|]. split.
+    - intros g out Hin Hb.
+      rewrite forallb_forall in Hok. pose proof (Hok (g, out) (Permutation_in _ HP Hin)) as Hk.
+      unfold wl_ok in Hk. cbn in Hk. rewrite Hb in Hk. cbn in Hk.
+      destruct (render (mk_file o p g out)) as [b|] eqn:R; [|discriminate].
+      exists b. split; [reflexivity|]. rewrite Hf1 by apply filename_is_gen.
+      assert (Hine : In (EWrite (pk_dir p, filename a g) b) es).
+      { rewrite Hes. apply in_or_app. left. apply in_flat_map. exists (g, out). split; [exact (Permutation_in _ HP Hin)|].
+        unfold wl_eff. cbn. rewrite Hb, R. now left. }
+      rewrite (apply_find es f _ HN).
+      change (pk_dir p, filename a g) with (eff_path (EWrite (pk_dir p, filename a g) b)).
+      now rewrite (find_in_nodup es _ HN Hine).
+    - intros k Hg Hne. rewrite (Hf1 k Hg) in Hne.
+      destruct (in_dec (list_eq_dec Ascii.ascii_dec) k (map (fun kv : bytes * genout => filename a (fst kv)) gfs)) as [Hin|Hnin].
+      + apply in_map_iff in Hin. destruct Hin as [[g out] [<- Hin]]. exists g. split; [|reflexivity].
+        change g with (fst (g, out)). now apply in_map.
+      + exfalso. apply Hne. rewrite (apply_find es f _ HN).
+        destruct (find (fun e => path_eqb (pk_dir p, k) (eff_path e)) es) as [e|] eqn:F.
+        * apply find_some in F. destruct F as [Hine Hpe]. apply path_eqb_spec in Hpe.
+          rewrite Hes in Hine. apply in_app_or in Hine. destruct Hine as [Hine|Hine].
+          -- destruct (wl_eff_in a p _ e Hine) as [g [out [b [Hgin [_ [_ ->]]]]]]. cbn in Hpe. inversion Hpe; subst.
+             exfalso. apply Hnin. apply in_map_iff. exists (g, out). split; [reflexivity|].
+             exact (Permutation_in _ (Permutation_sym HP) Hgin).
+          -- apply in_map_iff in Hine. destruct Hine as [kv [<- _]]. reflexivity.
+        * destruct (f (pk_dir p, k)) eqn:Ff; [|reflexivity]. exfalso.
+          assert (Hk : In k (pk_files p)) by (apply Hload; [exact Hg|congruence]).
+          destruct (generated_files_spec a p) as [_ [_ S3]]. pose proof (S3 k Hk Hg) as Hgf.
+          assert (Hst : In (k, (pk_dir p, k))
+                           (fold_left (fun s (kv : bytes * genout) => adel (filename a (fst kv)) s)
+                                      (o _ [bs "gfs"; pk_path p] gfs) (generated_files a p))).
+          { apply (In_fold_adel (fun kv : bytes * genout => filename a (fst kv))). split; [exact Hgf|].
+            intros x Hx Hkx. apply Hnin. apply in_map_iff. exists x. split; [now symmetry|].
+            exact (Permutation_in _ (Permutation_sym HP) Hx). }
+          assert (Hrm : In (ERemove (pk_dir p, k)) es).
+          { rewrite Hes. apply in_or_app. right. apply in_map_iff. exists (k, (pk_dir p, k)). split; [reflexivity|].
+            exact (Permutation_in _ (Hs _ _ _) Hst). }
+          pose proof (find_none _ _ F _ Hrm) as Hfn. cbn in Hfn. rewrite path_eqb_refl in Hfn. discriminate.
+  Qed.
+
+  Definition from_other (w : world) (l : list (bytes * bool)) (k : bytes) (e : effect) : Prop :=
+    exists k2 d2 p2, In (k2, d2) l /\ k2 <> k /\ find_pkg k2 w = Some p2 /\ fst (eff_path e) = pk_dir p2.
+
+  Lemma from_other_mono : forall w l x k e, from_other w l k e -> from_other w (x :: l) k e.
+  Proof. intros w l x k e [k2 [d2 [p2 [H1 H2]]]]. exists k2, d2, p2. split; [now right|exact H2]. Qed.
+
+  Lemma pkgs_loop_parts : forall a w gens prev cur,
+      (forall k, pkg_changed a prev cur k = true) ->
+      forall l es log es' log',
+        NoDup (map fst l) ->
+        pkgs_loop true true render o a w gens prev cur l es log = Some (es', log') ->
+        exists tail, es' = es ++ tail
+          /\ (forall e, In e tail -> exists k d p2, In (k, d) l /\ find_pkg k w = Some p2 /\ fst (eff_path e) = pk_dir p2)
+          /\ (forall k d p, In (k, d) l -> selected a d = true -> find_pkg k w = Some p ->
+                exists A es_p B lg, tail = A ++ es_p ++ B
+                  /\ pkg_execute true true render o a gens p = Some (es_p, lg)
+                  /\ forall e, In e (A ++ B) -> from_other w l k e).
+  Proof.
+    intros a w gens prev cur Hch. induction l as [|[k0 d0] r IH]; intros es log es' log' HN H; cbn in H.
+    - inversion H; subst. exists []. rewrite app_nil_r. split; [reflexivity|]. split; [intros e []|intros k d p []].
+    - cbn in HN. inversion HN as [|? ? Hn Hr]; subst.
+      destruct (negb (a_all a) && negb d0) eqn:Sel.
+      + destruct (IH es log es' log' Hr H) as [tail [E [T1 T2]]]. exists tail. split; [exact E|]. split.
+        * intros e He. destruct (T1 e He) as [k [d [p2 [Hin Hrest]]]]. exists k, d, p2. split; [now right|exact Hrest].
+        * intros k d p [Heq|Hin] Hsel F.
+          -- inversion Heq; subst. unfold selected in Hsel. destruct (a_all a), d; cbn in *; discriminate.
+          -- destruct (T2 k d p Hin Hsel F) as [A [es_p [B [lg [E1 [E2 E3]]]]]]. exists A, es_p, B, lg.
+             split; [exact E1|]. split; [exact E2|]. intros e He. apply from_other_mono. now apply E3.
+      + rewrite Hch in H. cbn in H.
+        destruct (find_pkg k0 w) as [p0|] eqn:F0; [|discriminate].
+        destruct (pkg_execute true true render o a gens p0) as [[es0 lg0]|] eqn:X0; [|discriminate].
+        destruct (IH _ _ es' log' Hr H) as [tail [E [T1 T2]]]. exists (es0 ++ tail).
+        split; [rewrite E; now rewrite app_assoc|]. split.
+        * intros e He. apply in_app_or in He. destruct He as [He|He].
+          -- exists k0, d0, p0. split; [now left|]. split; [exact F0|]. now apply (pkg_execute_paths a gens p0 es0 lg0 X0).
+          -- destruct (T1 e He) as [k [d [p2 [Hin Hrest]]]]. exists k, d, p2. split; [now right|exact Hrest].
+        * intros k d p [Heq|Hin] Hsel F.
+          -- inversion Heq; subst. rewrite F0 in F. inversion F; subst.
+             exists [], es0, tail, lg0. split; [reflexivity|]. split; [exact X0|]. cbn. intros e He.
+             destruct (T1 e He) as [k2 [d2 [p2 [Hin [F2 Hd]]]]]. exists k2, d2, p2.
+             split; [now right|]. split; [|auto]. intros ->. apply Hn. change k with (fst (k, d2)). now apply in_map.
+          -- destruct (T2 k d p Hin Hsel F) as [A [es_p [B [lg [E1 [E2 E3]]]]]]. exists (es0 ++ A), es_p, B, lg.
+             split; [rewrite E1; now rewrite app_assoc|]. split; [exact E2|]. intros e He.
+             rewrite <- app_assoc in He. apply in_app_or in He. destruct He as [He|He].
+             ++ exists k0, d0, p0. split; [now left|]. split.
+                ** intros ->. apply Hn. change k with (fst (k, d)). now apply in_map.
+                ** split; [exact F0|]. now apply (pkg_execute_paths a gens p0 es0 lg0 X0).
+             ++ apply from_other_mono. now apply E3.
+  Qed.
+
+  Lemma first_run_settles : forall a e gens w f f1 log,
+      wf_world w -> NoDup (map pk_dir (w_pkgs w)) -> is_gen_name a sum_name = false ->
+      loaded a w f -> regen_all a w f ->
+      run true true render parse_sum o a e w gens f = Some (f1, log) ->
+      settled render o a e gens w f1.
+  Proof.
+    intros a e gens w f f1 log Hw Hdirs Hsum Hload Hregen H. unfold run, plan in H.
+    set (prev := if a_all a && existsb snd (sorted_local o e w) then _ else None) in H.
+    destruct (pkgs_loop true true render o a w gens prev (sum_data o w) (sorted_local o e w) [] []) as [[es lg]|] eqn:L;
+      [|discriminate].
+    inversion H; subst f1 log. clear H.
+    assert (Hch : forall k, pkg_changed a prev (sum_data o w) k = true).
+    { intros k. unfold pkg_changed. destruct (a_force a) eqn:Ef; [reflexivity|].
+      assert (prev = None) as ->; [|reflexivity]. unfold prev.
+      destruct Hregen as [Hr|[Hr|Hr]]; [congruence|now rewrite Hr|].
+      rewrite Hr. now destruct (a_all a && existsb snd (sorted_local o e w)). }
+    assert (Hsl := sorted_local_canon o e w Hs Hw).
+    assert (HNl : NoDup (map fst (sorted_local o e w))).
+    { rewrite Hsl, map_map. cbn. rewrite map_id. eapply Permutation_NoDup; [apply sort_perm|apply (wf_paths w Hw)]. }
+    destruct (pkgs_loop_parts a w gens prev (sum_data o w) Hch _ _ _ _ _ HNl L) as [tail [E [T1 T2]]].
+    cbn in E. subst es.
+    intros k p Hk Hsel F.
+    assert (Hin : In (k, mem k e) (sorted_local o e w)).
+    { rewrite Hsl. apply in_map_iff. exists k. split; [reflexivity|]. eapply Permutation_in; [apply sort_perm|exact Hk]. }
+    destruct (T2 k (mem k e) p Hin Hsel F) as [A [es_p [B [lg' [E1 [X Hoth]]]]]].
+    destruct (find_pkg_path w k p F) as [Hpk Hpin].
+    apply (pkg_execute_settles a gens p es_p lg' f); [exact X|intros k0; now apply Hload|].
+    intros k0 Hg.
+    assert (Hother : forall e0, In e0 (A ++ B) -> eff_path e0 <> (pk_dir p, k0)).
+    { intros e0 He0 Hp0. destruct (Hoth e0 He0) as [k2 [d2 [p2 [_ [Hne [F2 Hd]]]]]].
+      destruct (find_pkg_path w k2 p2 F2) as [Hpk2 Hpin2]. rewrite Hp0 in Hd. cbn in Hd.
+      assert (p = p2) by (eapply (NoDup_map_inj_in pk_dir); eassumption). subst p2. congruence. }
+    assert (Hcore : apply tail f (pk_dir p, k0) = apply es_p f (pk_dir p, k0)).
+    { rewrite E1, !apply_app.
+      rewrite apply_untouched by (intros e0 He0; apply Hother, in_or_app; now right).
+      apply apply_local. apply apply_untouched. intros e0 He0. apply Hother, in_or_app. now left. }
+    destruct (a_all a); [|exact Hcore].
+    rewrite apply_app. set (sp := (w_moddir w, sum_name)). cbn.
+    destruct (path_eqb (pk_dir p, k0) sp) eqn:Eq; [|exact Hcore].
+    apply path_eqb_spec in Eq. unfold sp in Eq. inversion Eq; subst. congruence.
+  Qed.
+End First.
+
+(* ================= second run, any number of runs ================= *)
+
+Lemma run_feq : forall render parse_sum (o : oracle) a e w gens f f',
+    feq f f' ->
+    out_equiv (run true true render parse_sum o a e w gens f) (run true true render parse_sum o a e w gens f').
+Proof.
+  intros render parse_sum o a e w gens f f' H. unfold run.
+  assert (E : plan true true render parse_sum o a e w gens f = plan true true render parse_sum o a e w gens f').
+  { unfold plan. now rewrite (H (w_moddir w, sum_name)). }
+  rewrite E. destruct (plan true true render parse_sum o a e w gens f') as [[es lg]|]; [|exact I].
+  cbn. split; [|reflexivity]. now apply apply_feq.
+Qed.
+
+Lemma generated_not_sum : forall a (md : bytes) q, is_gen_name a sum_name = false -> generated a q = true -> q <> (md, sum_name).
+Proof. intros a md q Hs Hg ->. unfold generated in Hg. cbn [snd] in Hg. congruence. Qed.
+
+Theorem second_run_fixed_point :
+  forall render parse_sum (o1 o2 : oracle) a e gens w w' f f1 log1,
+    shuffles o1 -> shuffles o2 -> wf_args a -> wf_world w -> wf_world w' ->
+    NoDup (map pk_dir (w_pkgs w)) -> is_gen_name a sum_name = false ->
+    Forall reads_sources_only gens -> reload w w' ->
+    loaded a w f -> regen_all a w f ->
+    run true true render parse_sum o1 a e w gens f = Some (f1, log1) ->
+    exists f2 log2,
+      run true true render parse_sum o2 a e w' gens f1 = Some (f2, log2)
+      /\ forall q, q <> (w_moddir w', sum_name) -> f2 q = f1 q.
+Proof.
+  intros render parse_sum o1 o2 a e gens w w' f f1 log1 Hs1 Hs2 Ha Hw Hw' Hd Hsum HF Hr Hl Hg H.
+  pose proof (run_order_independent render parse_sum o1 o2 a e e w gens f Hs1 Hs2 Ha Hw (Permutation_refl e)) as HO.
+  rewrite H in HO. unfold out_equiv in HO.
+  destruct (run true true render parse_sum o2 a e w gens f) as [[f1' lg]|] eqn:R1; [|contradiction].
+  destruct HO as [Hf _].
+  pose proof (first_run_settles render parse_sum o2 Hs2 a e gens w f f1' lg Hw Hd Hsum Hl Hg R1) as Hset.
+  destruct (run_settled render parse_sum o2 Hs2 a e gens w w' f1' Hw' Hr HF Hset) as [f2' [log2 [R2 Hsame]]].
+  pose proof (run_feq render parse_sum o2 a e w' gens f1 f1' Hf) as HE. rewrite R2 in HE. unfold out_equiv in HE.
+  destruct (run true true render parse_sum o2 a e w' gens f1) as [[f2 lg2]|]; [|contradiction].
+  destruct HE as [Hf2 ->]. exists f2, log2. split; [reflexivity|]. intros q Hq.
+  rewrite (Hf2 q), (Hsame q Hq). symmetry. apply Hf.
+Qed.
+
+Lemma settled_pkg_oracle : forall render (o o' : oracle) a gens p f,
+    shuffles o -> shuffles o' -> wf_args a -> wf_pkg p ->
+    settled_pkg render o a gens p f -> settled_pkg render o' a gens p f.
+Proof.
+  intros render o o' a gens p f Hs Hs' Ha Hw [gfs [log [G [C1 C2]]]]. exists gfs, log.
+  rewrite <- (gens_loop_eq o o' Hs Hs' a p gens [] [] Ha Hw). split; [exact G|]. split; [|exact C2].
+  intros g out Hin Hb. rewrite <- (mk_file_eq o o' Hs Hs'). now apply C1.
+Qed.
+
+Lemma settled_pkg_agree : forall render (o : oracle) a gens p f f',
+    (forall q, generated a q = true -> f' q = f q) ->
+    settled_pkg render o a gens p f -> settled_pkg render o a gens p f'.
+Proof.
+  intros render o a gens p f f' H [gfs [log [G [C1 C2]]]]. exists gfs, log. split; [exact G|]. split.
+  - intros g out Hin Hb. destruct (C1 g out Hin Hb) as [b [R F]]. exists b. split; [exact R|].
+    rewrite H; [exact F|]. unfold generated. cbn. apply filename_is_gen.
+  - intros k Hg Hne. apply C2; [exact Hg|]. rewrite <- H; [exact Hne|exact Hg].
+Qed.
+
+(* the worlds loaded before each further run, with the runtime's behaviour in that run *)
+Fixpoint runs_to (render : gfile -> option bytes) (parse_sum : bytes -> alist bytes) (a : args) (e : list bytes)
+         (gens : list gen) (f : fs) (ws : list (world * oracle)) (f' : fs) : Prop :=
+  match ws with
+  | [] => feq f f'
+  | (w', o) :: r =>
+      exists f1 log, run true true render parse_sum o a e w' gens f = Some (f1, log)
+                     /\ runs_to render parse_sum a e gens f1 r f'
+  end.
+
+Theorem settled_forever :
+  forall render parse_sum a e gens w,
+    wf_args a -> wf_world w -> is_gen_name a sum_name = false -> Forall reads_sources_only gens ->
+    forall (ws : list (world * oracle)),
+      Forall (fun wo => reload w (fst wo) /\ wf_world (fst wo) /\ shuffles (snd wo)) ws ->
+      forall f, (exists o, shuffles o /\ settled render o a e gens w f) ->
+      exists f', runs_to render parse_sum a e gens f ws f' /\ forall q, generated a q = true -> f' q = f q.
+Proof.
+  intros render parse_sum a e gens w Ha Hw Hsum HF. induction ws as [|[w' o] r IH]; intros HA f [o0 [Hs0 Hset]].
+  - exists f. split; [intros q; reflexivity|reflexivity].
+  - inversion HA as [|? ? [Hr [Hw' Hs]] HA']; subst. cbn in *.
+    assert (Hset' : settled render o a e gens w f).
+    { intros k p Hk Hsel F. apply (settled_pkg_oracle render o0 o); try assumption.
+      - pose proof (wf_pkgs w Hw) as HP. rewrite Forall_forall in HP. apply HP. now apply (find_pkg_path w k p).
+      - now apply (Hset k p). }
+    destruct (run_settled render parse_sum o Hs a e gens w w' f Hw' Hr HF Hset') as [f1 [log [R Hsame]]].
+    assert (Hgen : forall q, generated a q = true -> f1 q = f q)
+      by (intros q Hq; apply Hsame; now apply (generated_not_sum a)).
+    destruct (IH HA' f1) as [f' [Hruns Hf']].
+    + exists o. split; [exact Hs|]. intros k p Hk Hsel F. apply (settled_pkg_agree render o a gens p f f1 Hgen). now apply (Hset' k p).
+    + exists f'. split; [exists f1, log; auto|]. intros q Hq. rewrite (Hf' q Hq). now apply Hgen.
+Qed.
+
+(* the scripted generators of the harness read nothing but the package path *)
+Lemma scripted_reads_sources_only : forall name alias per_pkg, reads_sources_only (scripted name alias per_pkg).
+Proof. intros name alias per_pkg p p' mv cs [E _]. cbn. now rewrite E. Qed.
